@@ -54,6 +54,10 @@ def make_args_unique(a: ast.Lambda) -> ast.Lambda:
             else:
                 mapping = [(a.arg, arg_name()) for a in node.args.args]
                 self._seen_lambda = True
+            # The other kinds of parameters keep their names (they can be given by keyword).
+            others = node.args.posonlyargs + node.args.kwonlyargs
+            others += [p for p in (node.args.vararg, node.args.kwarg) if p is not None]
+            hidden = [(a.arg, a.arg) for a in others]
 
             # Default values are evaluated where the lambda is written: its own parameters
             # do not hide anything there.
@@ -62,12 +66,12 @@ def make_args_unique(a: ast.Lambda) -> ast.Lambda:
                 self.visit(d) if d is not None else None for d in node.args.kw_defaults
             ]
 
-            for old, new in mapping:
+            for old, new in mapping + hidden:
                 self._arg_stack.append((old, new))
 
             body = self.visit(node.body)
 
-            for _ in mapping:
+            for _ in mapping + hidden:
                 self._arg_stack.pop()
 
             new_args = copy.copy(node.args)
@@ -571,6 +575,12 @@ class simplify_chained_calls(FuncADLNodeTransformer):
                 n = arg_name() if a.arg in substituted_names else a.arg
                 self._arg_stack.define_name(a.arg, ast.Name(n, ast.Load()))
                 new_args.args.append(ast.arg(arg=n, annotation=None))
+            # The other kinds of parameters can be given by keyword, or collect what is left
+            # over: they keep their name, and hide anything of that name we are substituting.
+            others = node.args.posonlyargs + node.args.kwonlyargs
+            others += [p for p in (node.args.vararg, node.args.kwarg) if p is not None]
+            for a in others:
+                self._arg_stack.define_name(a.arg, ast.Name(a.arg, ast.Load()))
             return ast.Lambda(new_args, self.visit(node.body))
 
     def visit_Subscript_Tuple(self, v: ast.Tuple, s: ast.Constant):
